@@ -76,3 +76,25 @@ Theorem C07_sqrt_scale_in_C : forall (z : Coquelicot.Complex.C) (s : R), (0 < s)
   = cdiv ROps.ROps (csqrt ROps.ROps z) (Coquelicot.Complex.RtoC s).
 Proof. exact ROpsFacts.ROps_sqrt_scale. Qed.
 Goal True. idtac "THEOREM C07_sqrt_scale_in_C". Abort. Print Assumptions C07_sqrt_scale_in_C.
+
+(* ARRAY LEVEL: exchanging the axes (source transposed; (u,v), (Kx,Ky), domain extents, mode counts
+   and the measurement point swapped) transposes concentration and flux cell by cell at every
+   level — every explicitly given halo, every mode count, footprint and dispersion mode, numerical
+   and analytic branch, double-precision storage.  (The retained frequency set of the swapped
+   request is the swapped set, so no Nyquist exception is needed for the transposition.) *)
+From BL Require Import Proofs.SpecProofs Proofs.C07Array.
+Theorem C07_transpose : forall (O : Ops), Laws O -> forall (a : args O) (g : geom O) h sel k j i,
+  (forall pq s, sel (cmul O (fst pq) s, cmul O (snd pq) s) = cmul O (sel pq) s) ->
+  wf O a -> geometry O a = inl g -> a_halo O a = Some h -> g_nx O g <> 0%nat -> g_ny O g <> 0%nat ->
+  (k < length (a_levels O a))%nat -> (j < g_ny O g)%nat -> (i < g_nx O g)%nat ->
+  get3 O (field O (swap_args O a) (swap_geom O g) sel (table O (swap_args O a) (swap_geom O g))) k i j
+  = get3 O (field O a g sel (table O a g)) k j i.
+Proof. exact transpose_cells. Qed.
+
+Theorem C07_transposed_request_geometry : forall (O : Ops), Laws O -> forall (a : args O) (g : geom O) h,
+  wf O a -> geometry O a = inl g -> a_halo O a = Some h -> g_nx O g <> 0%nat -> g_ny O g <> 0%nat ->
+  geometry O (swap_args O a) = inl (swap_geom O g).
+Proof. exact swapped_geometry. Qed.
+
+Goal True. idtac "THEOREM C07_transpose". Abort. Print Assumptions C07_transpose.
+Goal True. idtac "THEOREM C07_transposed_request_geometry". Abort. Print Assumptions C07_transposed_request_geometry.
